@@ -198,10 +198,12 @@ pub fn gen_s1(focus: &str, seed: u64) -> S1Scenario {
             finish = Finish::All;
             visitor = false;
             polls = 0;
-            threads = 2 + rng.usize_below(2);
             if strategy == Strategy::Simulation || strategy == Strategy::OnDemand {
                 strategy = if rng.chance(1, 2) { Strategy::Bfs } else { Strategy::Dfs };
             }
+            // with 3+ workers a two-element frontier is never split (len / pieces == 0), and DFS then
+            // never leaves the chain: the side state would starve
+            threads = if strategy == Strategy::Dfs { 2 } else { 2 + rng.usize_below(2) };
             sched.block_size = *rng.pick(&[1usize, 2, 5, 8]);
             // a starved victim never panics and the chain then runs into the budget for nothing:
             // use schedules under which every worker makes progress
